@@ -2,4 +2,5 @@ SPECIFICATION Spec
 INVARIANT DocOK
 INVARIANT ScalarOK
 INVARIANT TagOK
+INVARIANT EscapeOK
 CHECK_DEADLOCK FALSE
